@@ -374,6 +374,11 @@ func cmdCheck(args []string) {
 				if !oblInProp(o, prop, j.props) {
 					return false
 				}
+				// `safety Cnn`: the function's unlabelled (panic-freedom) obligations are accounted to the sweep
+				// of that property only; under the other properties only its labelled clauses are checked
+				if res.Spec != nil && res.Spec.SafetyProp != "" && res.Spec.SafetyProp != prop && o.Label == "" && !o.Cover {
+					return false
+				}
 				if _, und := undecided[o.Name]; und && !thorough && !*writeBaseline && !o.Cover && !*triage {
 					skippedUnd = append(skippedUnd, o)
 					return false
